@@ -484,18 +484,4 @@ theorem no_tag_none (tag : String) (h0 : tagLookup tag "frugal" = none)
     (h : tagLookup tag "thrift" = none) : lookupStructTag tag = none := by
   simp [lookupStructTag, h0, h]
 
-/-! ### acceptance is transitive -/
-
-theorem accepted_resolves (U : Universe) (sid : Nat) (h : accepted U sid = true) :
-    ∃ sd, (resolveAll U).getD sid none = some sd := by
-  unfold accepted at h
-  simp only at h
-  rw [show U.length * U.length + U.length + 1 = (U.length * U.length + U.length) + 1 from rfl] at h
-  unfold reachOk at h
-  simp only [List.contains_nil, Bool.false_eq_true, ↓reduceIte] at h
-  split at h
-  · cases h
-  · rename_i sd hsd
-    exact ⟨sd, hsd⟩
-
 end Frugal
